@@ -134,4 +134,6 @@ contract(f'{TC}::_TrajectoryDataFilter.should_record', props=('C03', 'C05', 'C11
          ],
          modifies=['self.current_flag', 'self.seen_zero', 'self.time_of_last_record', 'self.next_record_distance',
                    'self.previous_mach', 'self.previous_time', 'self.previous_position', 'self.previous_velocity',
-                   'self.previous_v_mach'])
+                   'self.previous_v_mach'],
+         modular=True,
+         result_shape=OneOf(Const(None), Rec(tc.BaseTrajData, time=Real(), position=VEC, velocity=VEC, mach=Real())))
